@@ -1901,3 +1901,52 @@ func TestD52_OwnNameOutranksInheritedNames(t *testing.T) {
 		}
 	}
 }
+
+// D53 (C07): second regression of D46, left by D52. The names inherited from
+// further out all got the same discount, so for a type-only argument reached
+// while TWO named values are being produced (the target's parameter a and a
+// converter's parameter n) the values named a and n tied: the converter that
+// makes n got the value named a in about 60% of the calls. The nearest name
+// decides, as it did before the preference became a list.
+type d53S struct{ From string }
+type d53Y struct{ From string }
+type d53M struct{ K int }
+type d53T struct{ Y string }
+
+func TestD53_TheNearestNameBeingProducedDecides(t *testing.T) {
+	convT := func(in struct {
+		argmapper.Struct
+		A d53S
+		N d53Y
+	}) d53T {
+		return d53T{Y: in.N.From}
+	}
+	convY := func(in struct {
+		argmapper.Struct
+		S d53S `argmapper:",typeOnly"`
+		M d53M
+	}) struct {
+		argmapper.Struct
+		N d53Y
+	} {
+		return struct {
+			argmapper.Struct
+			N d53Y
+		}{N: d53Y{From: in.S.From}}
+	}
+	for i := 0; i < 300; i++ {
+		target := argmapper.MustFunc(argmapper.NewFunc(func(in struct {
+			argmapper.Struct
+			A d53T
+		}) string {
+			return in.A.Y
+		}))
+		res, p := call(target, argmapper.Named("a", d53S{"a"}), argmapper.Named("n", d53S{"n"}), argmapper.Named("m", d53M{1}), argmapper.Converter(convT, convY))
+		if p != nil || res.Err() != nil {
+			t.Fatalf("%v %v", p, res.Err())
+		}
+		if got := res.Out(0).(string); got != "n" {
+			t.Fatalf("iteration %d: the converter's parameter n was made from the value named %q, want the one named n", i, got)
+		}
+	}
+}
